@@ -1,7 +1,7 @@
 ENGINES = [
     {"name": "crashmc", "path": "mc/crashmc.py", "serves_properties": ["C07"],
      "kind_free_text": "crash-point enumeration over the syscall log (strace) of the real writer: all byte prefixes of the write sequence, recovery and restart executed on the real library"},
-    {"name": "gridmc", "path": "mc/checks", "serves_properties": ["C01", "C02", "C03", "C10", "C11", "C12", "C18", "C20"],
+    {"name": "gridmc", "path": "mc/checks", "serves_properties": ["C01", "C02", "C03", "C10", "C11", "C12", "C16", "C18", "C20"],
      "kind_free_text": "exhaustive enumeration of finite option lattices / member lists crossed with small branch-covering data alphabets, each point compared with an oracle independent of REBOUND"},
     {"name": "histmc", "path": "mc/histmc.py", "serves_properties": ["C04", "C05", "C06", "C08", "C09", "C13", "C14", "C15", "C17"],
      "kind_free_text": "explicit-state breadth-first exploration of operation histories on the real library object (state = history, canonical digest de-duplication, reference-model oracle on every transition)"},
@@ -10,6 +10,14 @@ NOTES = ("All checks explore the real implementation rebuilt from /repo's workin
          "so traces_validated_against_impl equals the number of executed transitions. known_findings.json lists repaired defects (fixed:) and recorded ones.")
 NOT_APPLICABLE = {}
 CHECKS = {
+    "C16": {
+        "engine": "gridmc", "category": "exploration",
+        "technique": "exhaustive enumeration of (A) all 65 derivative constructors on an element lattice against 40-digit numerical differentiation of an independent element map, (B) the lattice system x integrator setting x order x varied particle x parameter (pair) x test-particle flag x horizon, each variational run compared with Richardson-extrapolated finite differences of shadow runs, (C) rescaling cases, (D) MEGNO runs",
+        "text": "A: 12 first-order and 53 second-order constructors (every name pair of {m,a,e,inc,Omega,omega,f} and of {m,a,lambda,h,k,ix,iy}) x 4 element points (incl. near-circular/near-planar and retrograde) x 2 (G, masses) x 2 primary states; agreement to 1e-9 of the largest component, mass component. "
+                "B: systems V3 (two planets), V3h (masses 1e-2), V4t (N_active=3 plus a test particle) x {IAS15, BS, WHFast correctors 0/3/17 x safe/unsafe/keep_unsynchronized, LEAPFROG} first order x every particle x {x,y,z,vx,vy,vz,m, a,e,inc,Omega,omega,f,m(elements fixed), lambda,h,k,ix,iy} and test-particle variations; {IAS15, BS} second order x every pair within the Cartesian, classical and Pal sets plus cross-particle pairs; 92 steps (thorough: also 800 steps): 3.1k variational runs, 4-8 shadow runs each; BS second order against IAS15's variational particles. "
+                "C: variation started at 9e99 vs unit variation for IAS15, BS, LEAPFROG and 9 WHFast settings (exp(lrescale) x variation must be 9e99 x the unit variation; lrescale plausible). D: MEGNO within 0.15 (thorough 0.05) of 2 and Lyapunov estimate -> 0 over 300 (3000) orbits for IAS15 and 9 WHFast settings.",
+        "note": "WHFast: Jacobi coordinates and default kernel only (everything else is refused by the library), no test-particle variations (refused), mass variations are a recorded finding. Initial conditions of the shadow runs come from an independent element map, not from REBOUND.",
+    },
     "C04": {
         "engine": "histmc", "category": "exploration",
         "technique": "exhaustive enumeration of (A) the integrator option lattice x boosted systems x direction, (B) every operation history over {step, 3 steps, synchronize, switch to one of 11 integrators} up to depth 3 (thorough 4) from 16 initial configurations, (C) every insertion order of the bodies x integrator x merge time for a merging collision inside a close encounter; invariants evaluated in longdouble after every operation",
